@@ -11,7 +11,10 @@ RULE = ("typestate on data_half_used (H) by value numbering with gen_entropy kep
         "every other output entry point (fill_bytes through rand_core's fill_bytes_via_next, evaluated for each constant length 1..=24) the "
         "bytes produced must not depend on the pending half and a collection must happen; (R8) over every ordered pair of output calls "
         "(next_u32, next_u64, fill_bytes(n)), starting with and without a pending half, no bit of a collected value or of the stored pool is "
-        "exposed by two output positions (gen_entropy opaque with its post-condition ret = self.data from C12.R8)")
+        "exposed by two output positions (gen_entropy opaque with its post-condition ret = self.data from C12.R8); (R9) independent of how the "
+        "pending half is represented: every sequence of up to 3 output calls after a normalising next_u64, and clone followed by calls on "
+        "the clone, is evaluated and each call's outputs and number of collections are compared with the property's model (low half, then "
+        "the pending high half without a collection; every other call collects afresh)")
 EXPLANATION = ("Decides the half bookkeeping exactly; the quantifier over timer sequences is vacuous for these rules because timer values never "
                "influence H. One known finding (fill_bytes of 1..=4 bytes consumes a pending half by design) is listed in known_findings.json.")
 
@@ -65,9 +68,24 @@ def run(chk, tier):
     crate = Crate("rand_jitter")
     chk.config(crate.config)
     g = Gen(crate, "JitterRng")
+    iD = field_index(g.adt, "data")
+    try:
+        iH = field_index(g.adt, "data_half_used")
+    except Anchor:
+        iH = None
+    if iH is not None:
+        structural(chk, tier, crate, g, iH, iD)
+    else:
+        chk.ob("R1", "data_half_used|field present", True, "the pending half is no longer kept in a field `data_half_used`: the structural rules "
+               "R1-R4 and R6-R8 do not apply to this representation; the bookkeeping is decided by the bounded sequence rule R9 alone",
+               nontrivial=False)
+        chk.extra["representation_changed"] = True
+    rounds_loop(chk, crate, g)
+    sequences(chk, tier, crate, g, iD)
+
+
+def structural(chk, tier, crate, g, iH, iD):
     adt = g.adt
-    iH = field_index(adt, "data_half_used")
-    iD = field_index(adt, "data")
     # ---- R1
     ws = writers_of_field(crate, g.path, iH)
     allowed = {"rand_jitter::JitterRng::<F>::new_with_timer", "<rand_jitter::JitterRng<F> as core::clone::Clone>::clone",
@@ -152,6 +170,38 @@ def run(chk, tier):
         rn = ev.call_body(st, knew, args)
         okn = isinstance(rn, Struct) and rn.fields[iH] is T.FALSE
         chk.ob("R6", "new_with_timer|starts with no pending half", okn, "", nontrivial=False)
+    # ---- R7 other output entry points: the type's own fill_bytes for constant lengths
+    fkey = g.method(RNGCORE, "fill_bytes")
+    chk.body(fkey)
+    nmax = 24 if tier == "thorough" else 12
+    for n in range(1, nmax + 1):
+        ev, st, ref, oid, v = fresh()
+        H = v.fields[iH]
+        data = v.fields[iD]
+        dest = ArrV(n, 8, None, None, {i: T.sym("dest[%d]" % i, 8) for i in range(n)})
+        doid = st.alloc(dest, "dest")
+        try:
+            ev.call_body(st, fkey, [ref, Ref(doid, (), (0, n), True)])
+        except (Unsupported, SymbolicLoop, Diverged) as e:
+            chk.ob("R7", "fill_bytes(%d)" % n, False, "not established: %s" % e)
+            continue
+        out = st.objs[doid]
+        uses_pending = any(direct_dep(out.get(i), data) for i in range(n))
+        ok7 = not uses_pending
+        if n == 0:
+            pass
+        chk.ob("R7", "fill_bytes(%d)|output does not contain a pending half" % n, ok7,
+               "" if ok7 else "with data_half_used set, the first bytes are the stored high half of `data` (no collection)",
+               key=KNOWN_KEY if (not ok7 and n <= 4) else None, where=crate.bodies[g.method(RNGCORE, "fill_bytes")]["span"][0],
+               sample={"len": n, "depends_on_pending_half": uses_pending} if n in (4, 5) else None)
+    _run_r8(chk, crate, g, genkey, iD, iH, tier)
+
+
+def rounds_loop(chk, crate, g):
+    adt = g.adt
+    genkey = next((k for k in crate.bodies if crate.bodies[k]["def"] == GEN), None)
+    if genkey is None:
+        raise Anchor("gen_entropy not found")
     # ---- R5 gen_entropy rounds loop
     ev = crate.evaluator(max_steps=3000000)
     ev.summarise_loops = True
@@ -182,31 +232,6 @@ def run(chk, tier):
         r = found[0]
         chk.ob("R5", "gen_entropy|every round passes through at least one timer read", r.min_ticks >= 1,
                "minimum timer reads per round on any path: %d" % r.min_ticks, where=crate.bodies[genkey]["span"][0])
-    # ---- R7 other output entry points: the type's own fill_bytes for constant lengths
-    fkey = g.method(RNGCORE, "fill_bytes")
-    chk.body(fkey)
-    nmax = 24 if tier == "thorough" else 12
-    for n in range(1, nmax + 1):
-        ev, st, ref, oid, v = fresh()
-        H = v.fields[iH]
-        data = v.fields[iD]
-        dest = ArrV(n, 8, None, None, {i: T.sym("dest[%d]" % i, 8) for i in range(n)})
-        doid = st.alloc(dest, "dest")
-        try:
-            ev.call_body(st, fkey, [ref, Ref(doid, (), (0, n), True)])
-        except (Unsupported, SymbolicLoop, Diverged) as e:
-            chk.ob("R7", "fill_bytes(%d)" % n, False, "not established: %s" % e)
-            continue
-        out = st.objs[doid]
-        uses_pending = any(direct_dep(out.get(i), data) for i in range(n))
-        ok7 = not uses_pending
-        if n == 0:
-            pass
-        chk.ob("R7", "fill_bytes(%d)|output does not contain a pending half" % n, ok7,
-               "" if ok7 else "with data_half_used set, the first bytes are the stored high half of `data` (no collection)",
-               key=KNOWN_KEY if (not ok7 and n <= 4) else None, where=crate.bodies[g.method(RNGCORE, "fill_bytes")]["span"][0],
-               sample={"len": n, "depends_on_pending_half": uses_pending} if n in (4, 5) else None)
-    _run_r8(chk, crate, g, genkey, iD, iH, tier)
 
 
 def exposure(t, acc):
@@ -347,3 +372,181 @@ def _atoms(t):
                     stack.append(T._ATOM[i])
         stack.extend(x.args)
     return out
+
+
+# ------------------------------------------------------------------ R9: representation-independent sequence rule
+def untouched_by_gen_entropy(crate, g, genkey):
+    """fields of JitterRng that gen_entropy (with everything it calls, loops summarised) leaves exactly as they were"""
+    ev = crate.evaluator(max_steps=3000000)
+    ev.summarise_loops = True
+    ev.unroll_limit = 100
+    st = State()
+    ref, oid, v = sym_jitter(ev, st, g)
+    ev.call_body(st, genkey, [ref])
+    post = st.objs[oid]
+    return [i for i, (a, b) in enumerate(zip(v.fields, post.fields)) if same_value(a, b)]
+
+
+def sequences(chk, tier, crate, g, iD):
+    """R9: every sequence of output calls after a normalising next_u64 is compared with the property's model:
+         next_u32 with no half pending: one collection G, returns low(G), high(G) becomes pending
+         next_u32 with a half pending : no collection, returns the pending half
+         next_u64                     : one collection G, returns G, nothing pending
+         fill_bytes(n)                : n/8 x next_u64, then next_u64 (tail 5..7) or next_u32 (tail 1..4), truncated
+         clone                        : the clone starts with nothing pending
+       gen_entropy is opaque: it returns a fresh value, stores it in `data` (C12.R8) and leaves untouched exactly the fields
+       that its own evaluation leaves untouched. Only the field `data` is named; how the pending half is represented is not."""
+    genkey = next((k for k in crate.bodies if crate.bodies[k]["def"] == GEN), None)
+    if genkey is None:
+        raise Anchor("gen_entropy not found")
+    keep = untouched_by_gen_entropy(crate, g, genkey)
+    k32, k64, kfb = g.method(RNGCORE, "next_u32"), g.method(RNGCORE, "next_u64"), g.method(RNGCORE, "fill_bytes")
+    kcl = crate.method(g.path, "core::clone::Clone", "clone")
+    lens = [1, 4, 5, 8, 12] if tier == "quick" else [1, 2, 3, 4, 5, 7, 8, 9, 12, 16, 20]
+    ops = [("next_u32", None), ("next_u64", None)] + [("fill_bytes", n) for n in lens]
+    depth = 3 if tier == "quick" else 3
+    seqs = [()]
+    frontier = [()]
+    for _ in range(depth):
+        frontier = [sq_ + (o,) for sq_ in frontier for o in ops]
+        seqs.extend(frontier)
+    seqs = [s_ for s_ in seqs if s_]
+    # clone sequences: prefix, clone, then one or two operations on the clone
+    prefixes = [(), (("next_u32", None),), (("next_u32", None), ("next_u32", None)), (("fill_bytes", 5),)]
+    clone_seqs = [(pf, (o,)) for pf in prefixes for o in ops] + [(pf, (("next_u32", None), ("next_u32", None))) for pf in prefixes]
+    nseq = nfail = 0
+    where = crate.bodies[k32]["span"][0]
+
+    def run_seq(prefix, on_clone):
+        ev = crate.evaluator()
+        collected = []
+
+        def gen(ev_, st_, ctx):
+            r = ctx.args[0]
+            before = ev_.load(st_, r)
+            ret = P.opaque_call(ev_, st_, ctx, "no-inline")
+            after = ev_.load(st_, r)
+            fs = list(after.fields)
+            for i in keep:
+                fs[i] = before.fields[i]
+            fs[iD] = ret
+            ev_.store(st_, r, Struct(fs))
+            collected.append(ret)
+            return ret
+        ev.overrides[genkey] = gen
+        st = State()
+        ref, oid, v = sym_jitter(ev, st, g)
+        ev.call_body(st, k64, [ref])  # normalise: whatever was pending is gone
+        pending = None
+        target = ref
+
+        def apply(name, n, check):
+            nonlocal pending
+            c0 = len(collected)
+            if name == "fill_bytes":
+                doid = st.alloc(ArrV(n, 8, None, None, {i: T.sym("dest[%d]" % i, 8) for i in range(n)}), "dest")
+                ev.call_body(st, kfb, [target, Ref(doid, (), (0, n), True)])
+                got = [st.objs[doid].get(i) for i in range(n)]
+            else:
+                got = [ev.call_body(st, k32 if name == "next_u32" else k64, [target])]
+            new = collected[c0:]
+            # model
+            exp = []
+            need = 0
+
+            def take():
+                nonlocal need
+                need += 1
+                return new[need - 1] if need <= len(new) else None
+
+            def m_u64():
+                nonlocal pending
+                pending = None
+                return take()
+
+            def m_u32():
+                nonlocal pending
+                if pending is not None:
+                    r_, pending = pending, None
+                    return r_
+                G = take()
+                if G is None:
+                    return None
+                pending = T.trunc(T.lshr(G, 32), 32)
+                return T.trunc(G, 32)
+            if name == "next_u64":
+                exp = [m_u64()]
+            elif name == "next_u32":
+                exp = [m_u32()]
+            else:
+                for _ in range(n // 8):
+                    G = m_u64()
+                    exp.extend((T.byte_of(G, i) if G is not None else None) for i in range(8))
+                t = n % 8
+                if t > 4:
+                    G = m_u64()
+                    exp.extend((T.byte_of(G, i) if G is not None else None) for i in range(t))
+                elif t > 0:
+                    w = m_u32()
+                    exp.extend((T.byte_of(w, i) if w is not None else None) for i in range(t))
+            if not check:
+                return None
+            label = name if n is None else "%s(%d)" % (name, n)
+            if need != len(new):
+                return "%s performs %d collection(s), the model requires %d" % (label, len(new), need)
+            for i, (a_, b_) in enumerate(zip(got, exp)):
+                if a_ is not b_:
+                    return "%s output %d is %s, the model requires %s" % (label, i, T.show(a_, 3) if isinstance(a_, T.T) else a_,
+                                                                          T.show(b_, 3) if isinstance(b_, T.T) else b_)
+            return None
+        msgs = []
+        for name, n in prefix:
+            m = apply(name, n, True)
+            if m:
+                msgs.append(m)
+        if on_clone is not None:
+            rc = ev.call_body(st, kcl, [ref])
+            coid = st.alloc(rc, "clone")
+            target = Ref(coid, (), None, True)
+            pending = None  # the clone must not hold the original's half
+            for name, n in on_clone:
+                m = apply(name, n, True)
+                if m:
+                    msgs.append("on the clone: " + m)
+        return msgs
+
+    def label_of(sq_):
+        return "; ".join(nm if n is None else "%s(%d)" % (nm, n) for nm, n in sq_)
+    bad = []
+    for sq_ in seqs:
+        try:
+            msgs = run_seq(sq_, None)
+        except (Unsupported, SymbolicLoop, Diverged) as e:
+            msgs = ["not established: %s" % e]
+        nseq += 1
+        if msgs:
+            bad.append((sq_, None, msgs[0]))
+    for pf, oc in clone_seqs:
+        try:
+            msgs = run_seq(pf, oc)
+        except (Unsupported, SymbolicLoop, Diverged) as e:
+            msgs = ["not established: %s" % e]
+        nseq += 1
+        if msgs:
+            bad.append((pf, oc, msgs[0]))
+    # one obligation per distinct failure message shape (shortest sequence first), one summary obligation otherwise
+    bad.sort(key=lambda x: (len(x[0]) + (len(x[1]) if x[1] else 0)))
+    seen = set()
+    for pf, oc, m in bad:
+        shape = m.split(" is ")[0]
+        if shape in seen:
+            continue
+        seen.add(shape)
+        if len(seen) > 6:
+            break
+        lab = "next_u64; " + label_of(pf) + ("; clone -> " + label_of(oc) if oc else "")
+        chk.ob("R9", "%s|outputs and collections follow the model" % lab, False, m, where=where)
+    chk.ob("R9", "all %d call sequences (length <= %d after a normalising next_u64, plus clone sequences)|outputs and collections follow the model" % (
+        nseq, depth), not bad, "%d sequence(s) deviate" % len(bad), where=where,
+        sample={"sequences": nseq, "operations": [o[0] if o[1] is None else "%s(%d)" % o for o in ops], "fields_untouched_by_gen_entropy": len(keep)})
+    chk.floor("R9", "call sequences", nseq, 399 + len(clone_seqs))
